@@ -26,7 +26,7 @@ NUM_VALUES = [-2.5, -1.0, 0.0, 0.5, 1.0, 2.0, 3.0, 7.25, 100.0, -0.125]
 ODD_NUM = "c d"  # non-identifier numeric column name (needs backticks)
 
 
-def frame(min_rows=1, max_rows=12, nulls=False, index_kinds=("default",), odd_names=False, cat_dtypes=("object", "str", "category"), null_free=()):
+def frame(min_rows=1, max_rows=12, nulls=False, index_kinds=("default",), odd_names=False, cat_dtypes=("object", "str", "category"), null_free=(), bool_col=False):
     @st.composite
     def strat(draw):
         n = draw(st.integers(min_rows, max_rows))
@@ -43,6 +43,8 @@ def frame(min_rows=1, max_rows=12, nulls=False, index_kinds=("default",), odd_na
                 mask = draw(st.lists(st.sampled_from([0, 0, 0, 1]), min_size=n, max_size=n))
                 vals = [None if m else v for v, m in zip(vals, mask)]
             cols[name] = {"dtype": dt, "values": vals}
+        if bool_col:
+            cols["t"] = {"dtype": "bool", "values": draw(st.lists(st.booleans(), min_size=n, max_size=n))}
         for name in CAT_COLS:
             pool = CAT_LEVELS[name]
             k = draw(st.sampled_from([1, 2, 2, 3, 3, 4])) if name != "B" else draw(st.sampled_from([1, 2, 3]))
@@ -224,15 +226,18 @@ def factors(cat_cols=CAT_COLS, num_cols=NUM_COLS, contrasts=True, py=True, liter
             )
         )
     if py:
+        # python expressions are only applied to genuinely numeric columns: arithmetic on a boolean column is the
+        # dataframe library's business (Arrow has no bool + int kernel, numpy.exp(bool) is float16, ...)
+        py_cols = [c for c in num_cols if c != "t"]
         opts.append(
-            st.tuples(st.sampled_from(["add1", "brace_add1", "exp", "sq", "neg"]), st.sampled_from(num_cols)).map(
+            st.tuples(st.sampled_from(["add1", "brace_add1", "exp", "sq", "neg"]), st.sampled_from(py_cols)).map(
                 lambda t: {"k": "py", "fn": t[0], "cols": [t[1]]}
             )
         )
         opts.append(st.just({"k": "py", "fn": "mul", "cols": ["x", "y"]}))
         opts.append(st.sampled_from([["x", "y"], ["y", "z"], ["z", "x"]]).map(lambda c: {"k": "py", "fn": "stack", "cols": c}))
     if polyraw:
-        opts.append(st.tuples(st.sampled_from(num_cols), st.integers(1, 3)).map(lambda t: {"k": "polyraw", "col": t[0], "deg": t[1]}))
+        opts.append(st.tuples(st.sampled_from([c for c in num_cols if c != "t"]), st.integers(1, 3)).map(lambda t: {"k": "polyraw", "col": t[0], "deg": t[1]}))
     return st.one_of(*opts)
 
 
